@@ -16,6 +16,15 @@ def classify_exception(root):
 def main():
     shard_path, out_path = sys.argv[1], sys.argv[2]
     shard = json.load(open(shard_path))
+    cov = None
+    if os.environ.get("VERIF_COVERAGE"):
+        # optional reach monitor (tools/reach.sh): which library lines / branches this shard's workload executed
+        import coverage
+        root = os.path.realpath(os.environ.get("SYNAPGRAD_ROOT", "/repo"))
+        os.makedirs(os.environ["VERIF_COVERAGE"], exist_ok=True)
+        cov = coverage.Coverage(data_file=os.path.join(os.environ["VERIF_COVERAGE"], f"{shard['pid']}.cov.{os.getpid()}"),
+                                branch=True, include=[os.path.join(root, "synapgrad", "*")], config_file=False)
+        cov.start()
     from harness import env, runner
     prop = runner.load_prop(shard["pid"])
     ns = env.load(with_utils=getattr(prop, "NEEDS_UTILS", False))
@@ -61,6 +70,9 @@ def main():
             res["counters"][k] = res["counters"].get(k, 0) + v
         for v in extra.get("viol", []):
             res["violations"].append(v)
+    if cov is not None:
+        cov.stop()
+        cov.save()
     res["complete"] = True
     res["keys"] = sorted(res["keys"])
     res["cover"] = {k: sorted(map(str, v)) for k, v in res["cover"].items()}
